@@ -1,4 +1,7 @@
 import RodbusModel.Model.ServerNet
+import RodbusModel.Model.Server
+import RodbusModel.Model.Mbap
+import Driver.Points
 import Driver.Misc
 /-
   `net` suite: net <tcp|tls|tlsa>[6] m<max> <filter> <script>
@@ -16,28 +19,63 @@ def parseFilterTok (f : String) : Filter.AddressFilter :=
     | some w => .wildcard w
     | none => .any
 
+/-- the application of the `net` suite: unit 1 with 125 holding registers -/
+def netUnits : List (Nat × Points) := [(1, Points.parse "s2.0.125.1")]
+
+/-- the bytes the server session model answers to request number `tx` of a pipelined step
+    (read 125 holding registers of unit 1): `handleFrame`, framed by `Mbap.format` -/
+def pipeReply (tx : Nat) : Bytes :=
+  let f : Frame := ⟨some tx, 1, [3, 0, 0, 0, 125]⟩
+  match (handleFrame (⟨false, pointsHandler, none⟩ : ServerCfg Points) netUnits f).reply with
+  | some pdu => Mbap.format tx 1 pdu
+  | none => []
+
+/-- handler calls of one request of a pipelined step -/
+def pipeCalls : Nat :=
+  (handleFrame (⟨false, pointsHandler, none⟩ : ServerCfg Points) netUnits ⟨some 0, 1, [3, 0, 0, 0, 125]⟩).calls.length
+
 def obsStr : Obs → String
   | .conn k r => s!"c{k}:{r}"
   | .req k r => s!"q{k}:{r}"
+  | .pipe k r cnt => if r = "ok" then s!"P{k}:n={cnt},{toHex (pipeReply 0)}" else s!"P{k}:{r}"
   | .garb k r => s!"g{k}:{r}"
   | .prob k r => s!"p{k}:{r}"
   | .cmd n r => s!"{n}:{r}"
 
-def parseNetStep (st : String) : Option Step :=
+/-- label of the churn peers (the scripts number their connections from 1) -/
+def churnLabel : Nat := 0
+
+/-- one script step = a list of model steps: `B<k1>/<k2>/…` is the closes of these connections
+    (the model has no notion of "at the same instant": the outcome must be that of closing them
+    one after the other), `W<n>.<src>` is n × (connect; close) -/
+def parseNetStep (st : String) : List Step :=
   let op := st.toList.headD ' '
   let rest := String.ofList st.toList.tail
   if op = 'c' then
     match rest.splitOn "." with
-    | k :: addr => some (.connect (k.toNat?.getD 0) (parseAddr (".".intercalate addr)))
-    | _ => none
-  else if op = 'q' then some (.request (rest.toNat?.getD 0))
-  else if op = 'g' then some (.garbage (rest.toNat?.getD 0))
-  else if op = 'x' then some (.close (rest.toNat?.getD 0))
-  else if op = 'p' then some (.probe (rest.toNat?.getD 0))
-  else if op = 'L' then some .setDecode
-  else if op = 'S' then some .shutdown
-  else if op = 'H' then some .dropHandle
-  else none
+    | k :: addr => [.connect (k.toNat?.getD 0) (parseAddr (".".intercalate addr))]
+    | _ => []
+  else if op = 'q' then [.request (rest.toNat?.getD 0)]
+  -- `h<k>` … `t<k>`: one request delivered in two segments with other steps in between: nothing
+  -- happens at `h`, the request is answered at `t` (the harness prints it as `q<k>`)
+  else if op = 'h' then []
+  else if op = 't' then [.request (rest.toNat?.getD 0)]
+  else if op = 'P' then
+    match rest.splitOn "." with
+    | [k, cnt] => [.pipeline (k.toNat?.getD 0) (cnt.toNat?.getD 0)]
+    | _ => []
+  else if op = 'B' then (rest.splitOn "/").filterMap fun k => k.toNat?.map Step.close
+  else if op = 'W' then
+    match rest.splitOn "." with
+    | cnt :: addr => churnSteps churnLabel (parseAddr (".".intercalate addr)) (cnt.toNat?.getD 0)
+    | _ => []
+  else if op = 'g' then [.garbage (rest.toNat?.getD 0)]
+  else if op = 'x' then [.close (rest.toNat?.getD 0)]
+  else if op = 'p' then [.probe (rest.toNat?.getD 0)]
+  else if op = 'L' then [.setDecode]
+  else if op = 'S' then [.shutdown]
+  else if op = 'H' then [.dropHandle]
+  else []
 
 /-- the spec side states the two network-level clauses directly: a connection is served iff
     the peer matches the filter and the listener is up; it stays open until it is evicted (more
@@ -48,9 +86,15 @@ def runNet (tok : List String) : String × String :=
     let tls := variant.startsWith "tls"
     let mx := (String.ofList m.toList.tail).toNat?.getD 0
     let n0 : Net := { tracker := Tracker.new mx, filter := parseFilterTok flt, tls := tls }
-    let steps := if script = "-" then [] else (script.splitOn ",").filterMap parseNetStep
-    let (n, obs) := run n0 steps
-    let calls := (obs.filter fun o => match o with | .req _ "ok.982" => true | _ => false).length
+    let steps := if script = "-" then [] else ((script.splitOn ",").map parseNetStep).flatten
+    -- `runTR` = `run` (`C15Net.runTR_eq_run`), with constant stack
+    let (n, obs0) := runTR n0 steps
+    -- the churn peers are not observed
+    let obs := obs0.filter fun o => match o with | .conn k _ => k ≠ churnLabel | _ => true
+    let calls := (obs.map fun o => match o with
+      | .req _ "ok.982" => 1
+      | .pipe _ _ cnt => cnt * pipeCalls
+      | _ => 0).foldl (· + ·) 0
     let fin := if n.listening then "alive" else "taskdone"
     let out := (if obs.isEmpty then "-" else ";".intercalate (obs.map obsStr)) ++ s!" | {fin} calls={calls}"
     (out, out)
